@@ -53,3 +53,6 @@ def run(repo, res, tier):
     common.rule_tables_allowed(repo, res)
     # the white-space and delimiter tables hold single characters (membership is tested one character at a time)
     tablerules.rule_tb_char(repo, res)
+    # line ends are white space: the command-line front end reads a label file with the same line-end translation as the library
+    from .. import hookrules as _hk4io
+    _hk4io.rule_io_kind(repo, res)
